@@ -503,6 +503,7 @@ func eventLog(prop, tier string, seeds []uint64, runs int) {
 			sc := sim.Build(prop, s, uint64(i), tier)
 			b, _ := json.Marshal(sc)
 			st := sim.NewStats()
+			st.WantObs, st.Obs = true, 14695981039346656037
 			v := sim.Exec(sc, mon, st)
 			var h uint64 = 14695981039346656037
 			for _, c := range b {
@@ -512,7 +513,7 @@ func eventLog(prop, tier string, seeds []uint64, runs int) {
 			if v != nil {
 				vs = v.String()
 			}
-			fmt.Printf("%d %d scen=%016x calls=%d units=%d susp=%d v=%s\n", s, i, h, st.Calls, st.Units, len(st.Susp), vs)
+			fmt.Printf("%d %d scen=%016x calls=%d units=%d susp=%d obs=%016x v=%s\n", s, i, h, st.Calls, st.Units, len(st.Susp), st.Obs, vs)
 		}
 	}
 }
